@@ -602,7 +602,33 @@ func (t *tokenizer) skipBlobHelper() error {
 		return err
 	}
 
+	// A clob holds a string or a sequence of long strings, whose text may
+	// contain '}'. Skip it as a string before looking for the closing braces.
 	// https://github.com/amzn/ion-go/issues/115
+	switch c {
+	case '"':
+		if err := t.skipStringHelper(); err != nil {
+			return err
+		}
+		if c, _, err = t.skipLobWhitespace(); err != nil {
+			return err
+		}
+
+	case '\'':
+		ok, err := t.IsTripleQuote()
+		if err != nil {
+			return err
+		}
+		if ok {
+			if err := t.skipLongStringHelper(stopForCommentsHandler); err != nil {
+				return err
+			}
+			if c, _, err = t.skipLobWhitespace(); err != nil {
+				return err
+			}
+		}
+	}
+
 	for c != '}' {
 		c, _, err = t.skipLobWhitespace()
 		if err != nil {
